@@ -179,7 +179,16 @@ class Op(metaclass=OpMeta):
             try:
                 trace, _TRACE = _TRACE, None
                 result = fn(*args, **kwargs)
-                trace.setdefault(id(result), (result, self, raw_args))
+                # Record parameters passed at call time (extra positional args
+                # or kwargs) in the op itself rather than dropping them.
+                op, op_args = self, raw_args
+                if len(args) > cls.arity or kwargs:
+                    try:
+                        op = cls(*args[cls.arity :], **kwargs)
+                        op_args = args[: cls.arity]
+                    except TypeError:  # unhashable parameters
+                        pass
+                trace.setdefault(id(result), (result, op, op_args))
             finally:
                 _TRACE = trace
 
